@@ -190,7 +190,7 @@ pub fn gen_text(rng: &mut Rng, out: &mut String, max: usize) {
             2 => push_ws(rng, out),
             3 => {
                 // a long plain run so that the 16-byte SIMD stride is taken
-                let len = *rng.pick(&[15usize, 16, 17, 31, 32, 33, 40, 64]);
+                let len = *rng.pick(&[15usize, 16, 17, 31, 32, 33, 40, 63, 64, 65, 100, 127, 128, 129, 200]);
                 let stop = *rng.pick(&['<', '&', '\r', '\0', '\n', 'z', '\u{e9}']);
                 for i in 0..len {
                     if i == len / 2 && rng.chance(1, 3) {
@@ -237,7 +237,8 @@ fn gen_attr_value_body(rng: &mut Rng, out: &mut String, quote: Option<char>) {
                 "HIDDEN",
             ])),
             4 => {
-                for i in 0..rng.range(14, 20) {
+                let n = if rng.chance(1, 6) { *rng.pick(&[63usize, 64, 65, 130]) } else { rng.range(14, 20) };
+                for i in 0..n {
                     out.push((b'a' + (i % 26) as u8) as char);
                 }
             },
@@ -605,6 +606,20 @@ fn gen_node(rng: &mut Rng, out: &mut String, depth: usize) {
                 "<li><svg><li></svg><li>",
                 "<dd><math><dt></math><dt>",
                 "<h1><svg><h2></svg><h3>",
+                // "after head": head-only elements re-push the head element pointer
+                "<head></head><template>",
+                "</head><template><div>",
+                "</head><title>t</title>",
+                "</head><script>s</script><link>",
+                "</head><style>s</style><meta>",
+                "</head><noframes>",
+                "</template><title>",
+                "</template><base><link>",
+                "<head><template></head><body>",
+                "<form><template>",
+                "</template><input><button>",
+                "<table><form><template>",
+                "</form><input name=a>",
             ]);
             out.push_str(skel);
         },
